@@ -159,6 +159,25 @@ func (g *fgen) bind(e *lang.Expr, t *lang.Type, known bool) *gvar {
 	return v
 }
 
+// lamParam names a lambda parameter: usually fresh, one time in three the name of a variable or parameter of
+// the enclosing function that is not v itself (the lambda parameter shadows it inside the lambda only; the
+// outer variable keeps its own type and is typically used again afterwards, in the result tuple).
+func (g *fgen) lamParam(avoid *gvar) string {
+	if g.n(2, "shadowingLambdaParam") == 0 {
+		var c []*gvar
+		for _, v := range g.vars {
+			if v != avoid && !v.fn {
+				c = append(c, v)
+			}
+		}
+		if len(c) > 0 {
+			g.labels["lambda parameter named like an outer variable"] = true
+			return c[g.n(len(c)-1, "shadowedVar")].name
+		}
+	}
+	return g.fresh("x")
+}
+
 func ofType(t *lang.Type) func(*gvar) bool {
 	return func(v *gvar) bool { return v.t.Equal(t) && !v.fn }
 }
@@ -279,7 +298,7 @@ func (g *fgen) step() bool {
 			return false
 		}
 		et := v.t.Elem()
-		x := g.fresh("x")
+		x := g.lamParam(v)
 		xp := []lang.Param{{Name: x, T: et}}
 		xv := lang.Var(x, et)
 		switch g.n(3, "hofKind") {
